@@ -75,7 +75,7 @@ func checkC20(c *Ctx) Meta {
 			if strings.HasPrefix(pkgOf(fn), repoMod+"/cmd/") {
 				continue
 			}
-			allInstrs(fn, func(in ssa.Instruction) {
+			allInstrsShallow(fn, func(in ssa.Instruction) {
 				id := calleeID(in)
 				if id == "net/http.ListenAndServe" && fn != run && isProfileServer(c, fn, in) {
 					return
@@ -445,7 +445,7 @@ func checkC20(c *Ctx) Meta {
 			}
 			n++
 			fn := fn
-			allInstrs(fn, func(in ssa.Instruction) {
+			allInstrsShallow(fn, func(in ssa.Instruction) {
 				id := calleeID(in)
 				switch {
 				case strings.HasSuffix(id, "massutil.Amount).ToMASS"), strings.HasSuffix(id, "massutil.Amount).ToUnit"),
@@ -468,7 +468,7 @@ func checkC20(c *Ctx) Meta {
 				continue
 			}
 			fn := fn
-			allInstrs(fn, func(in ssa.Instruction) {
+			allInstrsShallow(fn, func(in ssa.Instruction) {
 				cl, ok := in.(*ssa.Call)
 				if !ok || !isCallAny(cl, "strings.TrimRight", "strings.TrimLeft", "strings.Trim") || len(cl.Call.Args) != 2 {
 					return
@@ -765,7 +765,7 @@ func isProfileServer(c *Ctx, fn *ssa.Function, in ssa.Instruction) bool {
 	}
 	okMux := true
 	for g := range c.AllFuncs {
-		allInstrs(g, func(i2 ssa.Instruction) {
+		allInstrsShallow(g, func(i2 ssa.Instruction) {
 			id := calleeID(i2)
 			if id == "net/http.HandleFunc" {
 				okMux = false
